@@ -19,10 +19,10 @@ PROPS = {
     },
     "C09": {
         "rule": "random histories (≤ 24 / ≤ 40 ops) of grow / fill a not-yet-flushed slot / write_to_file(None|Some(entry)) on the real "
-                "DirSection over a recording destination with random pre-existing content and start offset; one third of the cases "
+                "DirSection over a recording destination with random pre-existing content and start offset (one case in five positioned at or beyond 4 GiB in a sparse destination); one third of the cases "
                 "inject an I/O failure or short writes at a random trait-level call. Non-trivial = at least two flushes; distinct = "
                 "distinct (result, #faults, start-at-end, op-kind sequence).",
-        "expected_tags": ["result.ok", "result.err", "result.err-new", "script.fault", "script.short", "start.atEnd", "start.zero", "op.patch"],
+        "expected_tags": ["result.ok", "result.err", "result.err-new", "script.fault", "script.short", "start.atEnd", "start.zero", "start.beyond4G", "op.patch"],
         "trusted_base": ["the destination honours seek (not O_APPEND) and a write that returns Ok(n) stored exactly the first n bytes",
                          "std::io::Write::write_all loop semantics (modelled; compared call by call)"],
         "assumptions": ["start offset inside the destination's existing content (theorem hypothesis; the gap case is compared against the model only)",
